@@ -4,7 +4,7 @@
 From Coq Require Import Strings.String Floats.SpecFloat.
 Require Import Model.Base Model.Syntax Model.F64 Model.Lexer Model.Builder Model.Value Model.Context Model.Eval
                Model.Interface Model.InterfaceDefs Gen.Interface Model.InterfaceGen.
-Require Import Proofs.C12.
+Require Import Spec.RefEval Proofs.C12.
 
 (* every one of the 2 x 3 x 8 entry points (string / tree level; context-free / shared / mutable context;
    untyped and seven typed forms), on every source string, context and log, returns the untyped result
@@ -99,6 +99,27 @@ Theorem C12_project_err_source : forall t r x,
          | XEmpty => EExpectedEmpty w
          end.
 Proof. exact project_err_source. Qed.
+
+(* ---- one evaluator behind all context modes (C11 seen through the entry points) -------------------------------------
+   on a tree without assignment operators (also a hand-built one) the mutable-context and the shared-context entry
+   point of every result type return the same answer, leave the same context and make the same user-function calls;
+   the context-free entry point answers as the shared one on the empty context; on source strings that build,
+   across both levels *)
+Theorem C12_node_modes_agree : forall (O : std_oracle) (t : etype) (n : node) (c : ctx) (lg : log),
+  no_assign n = true ->
+  run_node_entry O MMut t n c lg = run_node_entry O MRo t n c lg.
+Proof. exact node_modes_agree. Qed.
+
+Theorem C12_node_free_is_ro_on_empty : forall (O : std_oracle) (t : etype) (n : node) (c : ctx) (lg : log),
+  no_assign n = true ->
+  run_node_entry O MFree t n c lg = (fst (fst (run_node_entry O MRo t n empty_hashmap [])), c, lg).
+Proof. exact node_free_is_ro_on_empty. Qed.
+
+Theorem C12_entry_modes_agree : forall (O : std_oracle) (l l' : elevel) (t : etype) (s : str) (n : node) (c : ctx) (lg : log),
+  translation_complete = true ->
+  build_operator_tree s = Ok n -> no_assign n = true ->
+  run_entry_gen O l MMut t s c lg = run_entry_gen O l' MRo t s c lg.
+Proof. exact entry_modes_agree. Qed.
 
 (* non-vacuity: a hand-built tree that no source denotes (an addition with three children) still goes through
    every tree-level entry point as the projection says *)
